@@ -9,11 +9,16 @@ PROOFS = ["C05/Refuted.vo", "C05/ProofsBase.vo", "C05/ProofsChol.vo", "C05/Proof
 PROOFS += [f for f in ["C05/ModelIter.vo", "C05/SpecIter.vo", "C05/ProofsIterSymSweep.vo", "C05/ProofsIterSymLoop.vo",
                        "C05/ProofsIterSvdSweep.vo", "C05/ProofsIterSvdLoop.vo", "C05/ProofsIterFrSweep.vo", "C05/ProofsIterFrLoop.vo"]
            if os.path.exists(os.path.join(vlib.COQ, f[:-1]))]
+# round 6: executable model of eigensystem / backSubstitution and its proofs
+PROOFS += [f for f in ["C05/ModelEig.vo", "C05/ProofsEig.vo", "C05/ProofsEig2.vo", "C05/ProofsEigSort.vo"]
+           if os.path.exists(os.path.join(vlib.COQ, f[:-1]))]
 # round 3: optional correspondence files of the extra streams (Float32 paths, re-derived step traces)
 EXTRA_STREAMS = [("cases32", "C05/Corr32", "case32", "correspondence C05.Corr32 (binary32 replay of the Float32/Real32 paths)"),
                  ("tcases", "C05/CorrTrace", "tcase", "correspondence C05.CorrTrace (re-derived step trace of an iterative routine)"),
                  ("icases", "C05/CorrIter", "icase", "correspondence C05.CorrIter (whole run of an iterative routine recomputed by the fuelled loop model)"),
-                 ("hcases", "C05/Corr", "hcase", "correspondence C05.Corr on InSitu-reuse histories (second run vs the buffer-free model / a fresh call)")]
+                 ("hcases", "C05/Corr", "hcase", "correspondence C05.Corr on InSitu-reuse histories (second run vs the buffer-free model / a fresh call)"),
+                 # round 6: eigensystem.Run / backSubstitution.Run recomputed as a whole by C05.ModelEig
+                 ("ecases", "C05/CorrEig", "ecase", "correspondence C05.CorrEig (whole run of eigensystem.Run / backSubstitution.Run recomputed by the model)")]
 TARGETS = ["Base/Num.vo", "Base/Corr.vo", "C05/Model.vo", "C05/Corr.vo", "C05/Resid.vo", "C05/Spec.vo", "C05/SpecTest.vo"] \
           + [t + ".vo" for _, t, _, _ in EXTRA_STREAMS if t != "C05/Corr" and os.path.exists(os.path.join(vlib.COQ, t + ".v"))] \
           + PROOFS + ["C05/Props.vo"]
@@ -35,9 +40,24 @@ PARTIAL = ("Theorems (over R, all sizes) cover the direct routines (Cholesky sou
            "(C05.Resid).  NOT proved: convergence / termination for a given fuel (F-QR-HANG, F-SVD-ZERODIAG-HANG exist), the size "
            "of the accumulated deflation perturbation (each step is bounded by the coded test, the sum is not), that the "
            "remaining 2x2 blocks of the Francis result have complex eigenvalues, and the rounding error of the binary64 run "
-           "(bounded per sampled case by the residual checker only).  eigensystem (eigenvalue extraction, back substitution, "
-           "sort), msqrt and msqrtInv have no executable model: they are decided per run by the residual checker, and their "
-           "InSitu-reuse histories by bit-equality with a fresh call (findings F-EIG-INSITU-REUSE, F-QR-INSITU-STALE-H).  "
+           "(bounded per sampled case by the residual checker only).  Since round 6 eigensystem.Run and "
+           "backSubstitution.Run have an executable model (coq/C05/ModelEig.v: getEigenvalues, back substitution, getEigenvector "
+           "with the h -= lambda / += lambda shifts, U x, normalisation, the copied buffer column whose stale tail is the mechanism "
+           "of F-EIG-INSITU-REUSE, the insertion sort that sort.Sort runs for n <= 12, the cycle-following column interchange loop, "
+           "the Symmetric branch, the forwarded Epsilon option, the ignored buffer without ComputeEigenvectors) tied by "
+           "bit-exact replay of the WHOLE call (C05.CorrEig: eigenvalues, eigenvectors, inSitu.QrAlgorithm.H; fresh / empty InSitu / "
+           "caller-supplied buffers / reuse histories; Float64 and Real64).  Proved for every size: back substitution solves the upper "
+           "triangular system and never reads below the diagonal; at a position k whose leading k+1 columns of H are upper triangular "
+           "with H_kk not repeated above k the vector of getEigenvector satisfies H x = H_kk x, h is restored, and U x / |U x| is a "
+           "UNIT eigenvector of A = U H U^T; without ComputeEigenvectors the result does not depend on a recycled buffer and carries no "
+           "eigenvectors; the sort returns (value, index of origin) pairs in decreasing magnitude that are a "
+           "permutation of the input pairs.  NOT proved: that the interchange loop puts column p[t] at position t for EVERY n (checked "
+           "in Coq for all permutations of up to 5 columns and replayed bit-exactly per run; its inner chase loop carries fuel n), the "
+           "closed form of getEigenvalues (replayed only), eigenvectors at positions behind a 2x2 block or for a repeated eigenvalue "
+           "(the code is wrong / divides by zero there: F-EIGNAN), sort.Sort for n > 12 (pdqsort; not replayed).  msqrt and msqrtInv "
+           "still have no executable model (matrixInverse is outside this property's models): they are decided per run by the "
+           "residual checker, and their InSitu-reuse histories by bit-equality with a fresh call (finding F-QR-INSITU-STALE-H for "
+           "qr / eig without InitializeH).  "
            "Runs that do not converge within the sweep cap of the harness's lock-step skeleton are not replayed.  The Float32 / "
            "Real32 Cholesky family is replayed on a binary32 carrier (no theorem for forced-PD there).")
 KF_PROPOSED = os.path.join(vlib.ROOT, "corpus/C05/known_findings_proposed.json")
@@ -194,7 +214,40 @@ def run(ctx):
             for f in findings():
                 if f["id"] == "F-QR-INSITU-STALE-H":
                     ctx.known_finding(f["id"], "%s [%d occurrence(s) in %s]" % (f["what"], nstale, name))
+        efound = {}
+        if name == "ecases" and xbad:
+            # a broken tie of the eigensystem model: hand the inputs to the property oracle on the implementation
+            # (A v = lambda v, |v| = 1, eigenvalues sorted, eigenpairs aligned) to obtain a concrete failing input
+            its, back = [], []
+            for i in xbad[:8]:
+                ein = xraw[i].get("in") or {}
+                if ein.get("kind") == "eig" and ein.get("mode") in ("fresh", "insitu"):
+                    fam = ein.get("family") or ""
+                    its.append({"kind": "eig", "m": ein["m"], "b1": bool(ein.get("ce")), "sym": bool(ein.get("sym")),
+                                "path": ein.get("path") or "f64", "family": fam,
+                                "real_spectrum": fam.startswith(("near-triangular", "triangular", "symmetric", "witness-sort"))})
+                    back.append(i)
+            if its:
+                hh = run_hunt(ctx, binary, [], its, 0)
+                for r in (hh.get("handed") or []):
+                    if r.get("found") and r.get("is_iter") and r["idx"] < len(back) and \
+                            not is_known(r["site"], r["class"], r.get("iter"), r["failure"]):
+                        efound[back[r["idx"]]] = r
         for i in xbad[:5]:
+            if name == "ecases" and xraw[i].get("outcome") in ("panic", "epsilon-ignored"):
+                # observed on the implementation itself (regressions of the repaired F-EIG-INSITU-NOVEC-PANIC /
+                # F-EIG-EPSILON-DROPPED): the replayed input is the failing input
+                ctx.violation({key: xraw[i], "obligation": what}, True,
+                              "eigensystem.Run %s on this input: %s" % (
+                                  "panics" if xraw[i]["outcome"] == "panic" else "ignores the requested qrAlgorithm.Epsilon",
+                                  json.dumps(xraw[i])[:300]))
+                continue
+            if i in efound:
+                r = efound[i]
+                ctx.violation({"rcase": {"iter": r.get("iter")}, key: xraw[i], "obligation": what, "site": r["site"],
+                               "failure": r["failure"]}, True,
+                              "eigensystem violates the factorization property: %s (and differs from its model)" % r["failure"])
+                continue
             hist_found = name in ("icases", "hcases") and (xraw[i].get("outcome") == "differs-from-fresh")
             ctx.violation({key: xraw[i], "obligation": what}, hist_found,
                           ("the second run of an InSitu-reuse history differs from a call on fresh buffers and from the model (%s): %s"
@@ -267,7 +320,7 @@ def replay(ctx, path):
     if binary is None:
         print(blog)
         return 2
-    if not any(k in rp for k in ("case", "rcase", "case32", "tcase", "icase", "hcase")):
+    if not any(k in rp for k in ("case", "rcase", "case32", "tcase", "icase", "hcase", "ecase")):
         print("replay names a broken obligation, not an input: %s" % rp.get("obligation"))
         ok, failures = vlib.proof_stage(ctx, TARGETS, PROPS)
         return 0 if ok else 1
@@ -277,7 +330,8 @@ def replay(ctx, path):
                                   glob.glob(os.path.join(ctx.dir, "replay32_*.v")) +
                                   glob.glob(os.path.join(ctx.dir, "treplay_*.v")) +
                                   glob.glob(os.path.join(ctx.dir, "ireplay_*.v")) +
-                                  glob.glob(os.path.join(ctx.dir, "hreplay_*.v"))))
+                                  glob.glob(os.path.join(ctx.dir, "hreplay_*.v")) +
+                                  glob.glob(os.path.join(ctx.dir, "ereplay_*.v"))))
     agree = all(r["ok"] for r in res)
     direct, iters = [], []
     if rp.get("case"):
